@@ -162,6 +162,19 @@ pub fn encodings_of<I: InnerTy>(v: &I) -> Vec<Dv> {
                 out.push(Dv::Map(vec![(Dv::S("x".into()), Dv::I(x as i128, 64)), (Dv::S("y".into()), Dv::I(y as i128, 64))]));
                 out.push(Dv::Map(vec![(Dv::S("x".into()), Dv::I(x as i128, 64))]));
                 out.push(Dv::Point(x + 70_000, y));
+            } else if I::NAME == "Cow<[f32]>" {
+                let a: Vec<f32> = j
+                    .get("bits")
+                    .and_then(|b| b.as_array())
+                    .map(|a| a.iter().filter_map(|x| x.as_str().and_then(|s| u32::from_str_radix(s.trim_start_matches("0x"), 16).ok())).map(f32::from_bits).collect())
+                    .unwrap_or_default();
+                out.push(Dv::Seq(a.iter().map(|x| Dv::F32(*x)).collect()));
+                out.push(Dv::Seq(a.iter().map(|x| Dv::F64(*x as f64)).collect()));
+                out.push(Dv::Seq(a.iter().map(|x| Dv::F64(*x as f64 * 1e30)).collect()));
+                if a.iter().all(|x| x.fract() == 0.0 && x.abs() < 1e9) {
+                    out.push(Dv::Seq(a.iter().map(|x| Dv::I(*x as i128, 32)).collect()));
+                }
+                out.push(Dv::Seq(a.iter().map(|x| Dv::S(format!("{x}"))).collect()));
             } else {
                 let a: Vec<i64> = j.as_array().map(|a| a.iter().filter_map(|x| x.as_i64()).collect()).unwrap_or_default();
                 out.push(Dv::Seq(a.iter().map(|x| Dv::I(*x as i128, 32)).collect()));
